@@ -45,6 +45,8 @@ def build_coq():
     """full .vo build (no-op when current). Returns (ok, log)."""
     if not os.path.exists(os.path.join(COQ, 'Makefile')):
         sh('coq_makefile -f _CoqProject -o Makefile', cwd=COQ)
+    # translator: the documentation table of the repository under check -> Spec/DocTable.v (C08)
+    sh('python3 %s %s %s' % (os.path.join(VERIF, 'bin', 'gen_doctable.py'), REPO, os.path.join(COQ, 'Spec', 'DocTable.v')), check=False)
     p = sh('timeout 3000 make -j%d' % NPROC, cwd=COQ, timeout=3100, check=False)
     return p.returncode == 0, p.stdout
 
